@@ -71,6 +71,25 @@ def register_touch(w, before):
                 w.store.put(dn, rel, e[1], e[3])
 
 
+def rebless_after_fix(w):
+    """A fix inside a history may leave, under a recorded (size, mtime) identity, bytes that are not the
+    version the harness wrote (known finding C05-hybrid: a partially synced file that changed is 'recovered'
+    block-wise).  The identity now denotes the bytes on disk: later syncs hash these.  Re-register them so
+    that the history can go on; the judged fix of C01/C05 is never followed by this."""
+    n = 0
+    for dn, tree in w.arr.snap_data().items():
+        for rel, e in tree.items():
+            if e[0] != "f" or e[1] is None:
+                continue
+            key = (dn, rel, e[2], e[3])
+            old = w.store.v.get(key)
+            if old is None or old != e[1]:
+                if old is not None:
+                    n += 1
+                w.store.v[key] = e[1]
+    return n
+
+
 def lose_files(w, s):
     d = w.ndisk(s["disk"])
     lost = []
@@ -100,6 +119,10 @@ def run_history(w, steps, after_command=None):
                 return "step %d: %s died with signal %d: %s" % (i, op, -r.rc, r.err[-300:].decode("latin-1")), stats
             if op == "touch":
                 register_touch(w, before)
+            if op == "fix":
+                n = rebless_after_fix(w)
+                if n:
+                    stats["classes"].add("fix left a hybrid file under a recorded identity (finding C05-hybrid)")
             if op == "sync":
                 if r.rc == 0 and not s.get("kill_after") and "B" not in s:
                     stats["syncs_ok"] += 1
